@@ -50,6 +50,8 @@ func runC02(c *Ctx, r *Report) {
 	noCallerCodeMidUpdate(c, r, "R-C02.18")
 	r.Doc("R-C02.19", "within one key space — the entry maps of the logs, or any one Go map — every key derived from an identifier is derived by the same method (a predecessor index filed under one form of a CID and asked under another finds nothing: referenced entries stay heads)")
 	oneSpellingOfAHash(c, r, "R-C02.19")
+	r.Doc("R-C02.20", "the heads a view publishes (snapshot, JSON form, Heads, RawHeads) are the head set itself, possibly sorted — never the first entries of a walk (with branches of unequal length those are a head and its predecessors)")
+	publishedHeadsAreTheHeadSet(c, r, "R-C02.20")
 	r.Doc("R-C02.9", "the predecessor index that decides which entries are referenced is keyed by predecessor links of the filed entry (not by its references, not by another list)")
 	indexKeys(c, r, "R-C02.9")
 
